@@ -230,9 +230,15 @@ def run_bootstrap_like(ctx, routine, tap):
     N = int(rng.integers(4, 13))
     grouped = bool(rng.integers(2))
     rdesc, pdesc = ('grp', 'pgrp') if grouped else ('uid', 'puid')
+    own_index = False
+    if grouped and rng.integers(3) == 0:
+        # the subject grouping lives in a user-owned rdm descriptor called 'index' (the name the routines use by default;
+        # a data set that is itself a bootstrap sample has such a non-unique index): groups are groups, whatever the name
+        w['rd']['index'] = list(w['rd']['grp'])
+        rdesc, own_index = 'index', True
     bnc = bool(rng.integers(2))
     seed = int(rng.integers(2 ** 31))
-    sig = dict(routine=routine, method=method, grouped=grouped, rdm_grouping=w['rgk'], pattern_grouping=w['pgk'],
+    sig = dict(routine=routine, method=method, grouped=grouped, rdm_grouping=w['rgk'], pattern_grouping=w['pgk'], own_index=own_index,
                boot_noise_ceil=bnc, models='+'.join(sorted(set(type(m).__name__[5:] for m in models))))
     wit = lambda **k: dict(routine=routine, data=w['data'], rd=w['rd'], pd=w['pd'], method=method, N=N, seed=seed,  # noqa
                            rdm_descriptor=rdesc, pattern_descriptor=pdesc, thetas=thetas, **k)
@@ -244,6 +250,8 @@ def run_bootstrap_like(ctx, routine, tap):
     else:
         fn, kw2 = E.eval_bootstrap_rdm, dict(rdm_descriptor=rdesc)
     kw.update(kw2)
+    if own_index and rng.integers(2):
+        kw.pop('rdm_descriptor')        # 'index' is the documented default
 
     def go():
         np.random.seed(seed)
